@@ -57,15 +57,19 @@ class Ctx:
             if key not in seen:
                 seen.add(key); vals.append(v)
         os.remove(r["dump_path"])
+        vals.sort(key=lambda v: json.dumps(v, sort_keys=True))     # TLC's dump order depends on worker scheduling
         return vals
 
     # ------------------------------------------------------------------ P2
     def pmap_fresh(self, fn, items, procs=NCPU):
         """like pmap, but every item runs in its own process forked from this (pristine) one; results are returned, not recorded"""
         items = list(items)
+        batch = 8                              # items per pristine grandchild
+        groups = [items[i:i + batch] for i in range(0, len(items), batch)]
         ctx = multiprocessing.get_context("fork")
-        with ctx.Pool(procs) as pool:          # the pool workers never call the library themselves: each item runs in a grandchild
-            return pool.map(_FreshCall(fn), items, chunksize=max(1, len(items) // (procs * 16)))
+        with ctx.Pool(procs) as pool:          # the pool workers never call the library themselves: each batch runs in a grandchild
+            res = pool.map(_FreshCall(fn), groups, chunksize=max(1, len(groups) // (procs * 16)))
+        return [r for g in res for r in g]
 
     def pmap(self, fn, items, procs=NCPU):
         """run fn(case) -> [events] over items in forked worker processes (fresh objects per case)"""
@@ -199,7 +203,7 @@ class _FreshCall:
         if pid == 0:
             try:
                 os.close(r)
-                data = pickle.dumps(_safe_call(self.fn, item))
+                data = pickle.dumps([_safe_call(self.fn, it) for it in item])
                 with os.fdopen(w, "wb") as f:
                     f.write(data)
             finally:
@@ -209,7 +213,7 @@ class _FreshCall:
             data = f.read()
         os.waitpid(pid, 0)
         if not data:
-            return [{"op": "exc", "exc": "ChildDied", "msg": "the forked child produced no result", "where": ""}]
+            return [[{"op": "exc", "exc": "ChildDied", "msg": "the forked child produced no result", "where": ""}] for _ in item]
         return pickle.loads(data)
 
 class _SafeCall:
